@@ -120,7 +120,8 @@ _T = {'quick': 200, 'thorough': 1200}
 _split = lambda Ls, nbs: [dict(id='L%d_nb%d' % (L, nb), pre=['L == %d' % L, 'nb == %d' % nb]) for L in Ls for nb in nbs]
 # two blacklist intervals: split on their relative order and on whether the first one starts inside the region
 _split2 = lambda Ls: [dict(id='L%d_nb2_%s' % (L, nm), pre=['L == %d' % L, 'nb == 2'] + pre) for L in Ls for nm, pre in (
-    ('a_first_low', ['a0 <= b0', 'a0 <= 2']), ('a_first_high', ['a0 <= b0', 'a0 > 2']), ('b_first_low', ['b0 < a0', 'b0 <= 2']), ('b_first_high', ['b0 < a0', 'b0 > 2']))]
+    ('a_first_neg', ['a0 <= b0', 'a0 <= 0']), ('a_first_low', ['a0 <= b0', '1 <= a0 <= 2']), ('a_first_high', ['a0 <= b0', 'a0 > 2']),
+    ('b_first_neg', ['b0 < a0', 'b0 <= 0']), ('b_first_low', ['b0 < a0', '1 <= b0 <= 2']), ('b_first_high', ['b0 < a0', 'b0 > 2']))]
 LEMMAS = [
     dict(name='L1_fill_range', fn='_l1_fill', engine='E1', timeout=_T, replay='replay.C17:replay'),
     dict(name='L3_partition', fn='_l3_partition', engine='E1', timeout=_T, replay='replay.C17:replay',
